@@ -1,6 +1,7 @@
 package main
 
 import (
+	"golang.org/x/tools/go/ast/astutil"
 	"fmt"
 	"os"
 	"strings"
@@ -1542,6 +1543,37 @@ func (p *GoProg) propagateNewLocals() {
 			return e
 		})
 		stripRedundantParens(fd.Body)
+		// a propagated prefix view `x[:n]` (from `v := x[:n]`): `len(x[:n])` is n and `x[:n][i]` is x[i] wherever the
+		// program evaluated `len(v)` / `v[i]` (only for the views this pass has just written out)
+		views := map[string]bool{}
+		for _, def := range subst {
+			if se, ok := ast.Unparen(def).(*ast.SliceExpr); ok && se.Low == nil && se.High != nil && se.Max == nil && !se.Slice3 {
+				views[p.Str(se)] = true
+			}
+		}
+		if len(views) > 0 {
+			astutil.Apply(fd.Body, nil, func(cu *astutil.Cursor) bool {
+				switch x := cu.Node().(type) {
+				case *ast.CallExpr:
+					if id, ok := x.Fun.(*ast.Ident); ok && id.Name == "len" && len(x.Args) == 1 {
+						if _, isB := p.Info.Uses[id].(*types.Builtin); isB {
+							if se, ok := ast.Unparen(x.Args[0]).(*ast.SliceExpr); ok && views[p.Str(se)] {
+								if tv, ok := p.Info.Types[se.High]; ok && tv.Type != nil {
+									if b, ok := tv.Type.Underlying().(*types.Basic); ok && b.Kind() == types.Int {
+										cu.Replace(se.High)
+									}
+								}
+							}
+						}
+					}
+				case *ast.IndexExpr:
+					if se, ok := ast.Unparen(x.X).(*ast.SliceExpr); ok && views[p.Str(se)] {
+						x.X = se.X
+					}
+				}
+				return true
+			})
+		}
 		// the definitions become `_ = e` (dropped by the normal forms)
 		for _, as := range defStmt {
 			blank := &ast.Ident{Name: "_", NamePos: as.Lhs[0].Pos()}
